@@ -594,6 +594,11 @@ asn1c_lang_C_type_SET(arg_t *arg) {
 		);
 		mcount++;
 	}
+	if(mcount == 0) {
+		/* "SET { }": an enum may not be empty in C */
+		INDENTED(OUT("%s_NOTHING\t/* No components */\n",
+			c_name(arg).presence_name));
+	}
 	OUT("} %s;\n", c_name(arg).presence_name);
 
 	REDIR(saved_target);
@@ -624,7 +629,7 @@ asn1c_lang_C_type_SET(arg_t *arg) {
 		OUT("/* Presence bitmask: ASN_SET_ISPRESENT(p%s, %s_PR_x) */\n",
 			id, id);
 		OUT("unsigned int _presence_map\n");
-		OUT("\t[((%ld+(8*sizeof(unsigned int))-1)/(8*sizeof(unsigned int)))];\n", mcount);
+		OUT("\t[((%ld+(8*sizeof(unsigned int))-1)/(8*sizeof(unsigned int)))];\n", mcount ? mcount : 1);
 	);
 
 	PCTX_DEF;
@@ -763,6 +768,8 @@ asn1c_lang_C_type_SET_def(arg_t *arg) {
 		if(tag2el_cxer)
 			OUT("asn_MAP_%s_tag2el_cxer_%d,\n",
 				p, expr->_type_unique_index);
+		else if(!tag2el_count)
+			OUT("0,\t/* No tags in the CXER map */\n");
 		else
 			OUT("asn_MAP_%s_tag2el_%d,\t/* Same as above */\n",
 				p, expr->_type_unique_index);
